@@ -478,7 +478,7 @@ def no_escape(index: RepoIndex, rep, rule: str) -> None:
 def run(index: RepoIndex, rep) -> None:
     rep.rule('C01.R7', 'row and column quantities are not exchanged in the membership predicates and the dynamics (axis typing, E14)', floor=1)
     from ..axes import axis_rule
-    axis_rule(index, rep, 'C01.R7', ('gym_gridverse/spaces.py', 'gym_gridverse/envs/transition_functions.py', 'gym_gridverse/envs/utils.py', 'gym_gridverse/envs/reward_functions.py'), floor=60)
+    axis_rule(index, rep, 'C01.R7', ('gym_gridverse/spaces.py', 'gym_gridverse/envs/transition_functions.py', 'gym_gridverse/envs/utils.py', 'gym_gridverse/envs/reward_functions.py'), floor=30)
     rep.rule('C01.R1', 'bounds: every grid subscript with a possibly-outside position is '
              'dominated by area.contains (IndexError idiom is one-sided)', floor=27)
     rep.rule('C01.R2', 'always-on action check precedes the dynamics', floor=4)
